@@ -113,11 +113,11 @@ impl Builder {
         let r = if edge_keygen && self.rng.chance(1, 4) { self.edge_rng() } else { self.healthy_rng() };
         self.push(Step::KeyGen { slot: local, node: home, kind: Kind::Local, rng: r });
         if family == 1 {
-            let idx = self.rng.usize_below(11);
+            let idx = self.rng.usize_below(crate::fixtures::V1_SIGNING_POOL);
             let pem = self.rng.chance(1, 3);
             self.push(Step::KeyPool { slot: secret, family, kind: Kind::Secret, idx, pem });
             self.push(Step::PublicOf { slot: public, from: secret, node: home });
-            let idx = self.rng.usize_below(4);
+            let idx = self.rng.usize_below(crate::fixtures::V1_PKE_POOL);
             self.push(Step::KeyPool { slot: pke_secret, family, kind: Kind::PkeSecret, idx, pem: false });
             let pem = self.rng.chance(1, 3);
             self.push(Step::KeyPool { slot: pke_public, family, kind: Kind::PkePublic, idx, pem });
